@@ -223,10 +223,32 @@ def main(argv=None) -> int:
         print(f"HARNESS-ERROR property={pid}: {e}", file=sys.stderr)
         traceback.print_exc()
         rc = 2
-    except Exception as e:  # any crash of the machinery is 'broken', not a violation
-        print(f"HARNESS-ERROR property={pid}: {type(e).__name__}: {e}", file=sys.stderr)
-        traceback.print_exc()
-        rc = 2
+    except Exception as e:
+        # An exception that escapes a check is the machinery's fault ('broken', exit 2) - unless it was raised inside
+        # the library under test by an input every check feeds it successfully on the unchanged tree: then the
+        # library refuses (or trips over) a legal input, which is reported as a violation with the traceback.
+        tb_text = "".join(traceback.format_exception(type(e), e, e.__traceback__))
+        cause = getattr(e, "__cause__", None)
+        if cause is not None:
+            tb_text += str(cause)
+        frames = [ln.strip() for ln in tb_text.splitlines() if ln.strip().startswith("File ")]
+        last = frames[-1] if frames else ""
+        lib = str(REPO / "naunet") + "/"
+        if lib in last and not isinstance(e, (MemoryError, KeyboardInterrupt)):
+            import re as _re
+
+            fn = (_re.search(r", in (\S+)", last) or [None, "?"])[1]
+            fl = (_re.search(r'File "([^"]+)"', last) or [None, "?"])[1].replace(lib, "")
+            ctx.violation(f"{pid}:library-raises:{type(e).__name__}:{fl}:{fn}", f"{type(e).__name__}: {str(e)[:200]} raised inside naunet/{fl} ({fn}) while the check was feeding it its usual inputs", {"exception": tb_text[-3000:]})
+            try:
+                ctx.write_evidence(getattr(mod, "LEVEL", "exploration"), {"evaluations": 0, "note": "aborted by an exception raised inside the library"})
+            except Exception:
+                pass
+            rc = 1
+        else:
+            print(f"HARNESS-ERROR property={pid}: {type(e).__name__}: {e}", file=sys.stderr)
+            traceback.print_exc()
+            rc = 2
     finally:
         ctx.close()
     return rc
